@@ -1,0 +1,14 @@
+//go:build verif
+
+package upstream
+
+// Exported shims for the verification harness (/verif). Add-only, compiled
+// only with -tags verif.
+
+func VerifMsgTruncated(b []byte) bool                        { return msgTruncated(b) }
+func VerifTryTrimIpv6Brackets(s string) string               { return tryTrimIpv6Brackets(s) }
+func VerifTryRemovePort(s string) string                     { return tryRemovePort(s) }
+func VerifTrySplitHostPort(s string) (string, uint16, error) { return trySplitHostPort(s) }
+func VerifParseDialAddr(urlHost, dialAddr string, defaultPort uint16) (string, uint16, error) {
+	return parseDialAddr(urlHost, dialAddr, defaultPort)
+}
